@@ -1,6 +1,6 @@
 """C06 - a content expression and its compiled matcher accept exactly the same sequences."""
 from .. import gen
-from ..refschema import EMPTY, SchemaRejected, ast_print, ast_size, deriv, first, nullable
+from ..refschema import EMPTY, SchemaRejected, TooComplex, ast_print, ast_size, deriv, first, nullable
 from . import contentwork as cw
 
 ID = "C06"
@@ -40,6 +40,9 @@ def check_expr(ctx, ast, alphabet, rnd, exhaustive):
     expr = ast_print(ast, rnd if not exhaustive or rnd.random() < 0.3 else None)
     spec = cw.probe_spec(expr)
     S, rs = cw.build(spec)
+    if isinstance(rs, TooComplex):
+        ctx.count("expressions_skipped_too_complex_for_reference")
+        return
     ctx.ev()
     det = {"expr": expr, "alphabet": alphabet}
     lib_rejects = isinstance(S, BaseException)
